@@ -199,7 +199,14 @@ impl Check for Lifecycle {
     }
 
     fn budget(&self, tier: &str) -> usize {
-        if tier == "thorough" { 40_000 } else { 3_000 }
+        match (self.id, tier) {
+            ("C06", "thorough") => 600_000,
+            ("C06", _) => 20_000,
+            ("C05", "thorough") => 300_000,
+            ("C05", _) => 10_000,
+            (_, "thorough") => 400_000,
+            _ => 12_000,
+        }
     }
 
     fn gen_case(&self, seed: u64, _idx: usize, _tier: &str, avoid: &[String]) -> Case {
